@@ -47,7 +47,7 @@ REQUIRED_CLASSES = (
        "padding=default", "padding=none", "split.chunks>=2", "split.has-1-byte-chunk", "data.len%16!=0", "data.len=0", "ctr.wrap", "ctr.carry",
        "ctr.default", "iv=default", "via=stream-helper", "stream-helper.short-read-before-eof", "mode.key=16", "mode.key=24", "mode.key=32", "vector=sp800-38a"]
     + ["adapter.iv=given", "adapter.iv=none", "adapter.iv=omitted", "adapter.len%16==0", "adapter.len%16!=0", "adapter.trailing00", "adapter.all-zero",
-       "adapter.objects=shared", "adapter.objects=fresh"]
+       "adapter.objects=shared", "adapter.objects=fresh", "adapter.len>=64KiB"]
     + ["hist.same-object>=2calls", "hist.adapters-sharing-key", "hist.adapter+mode-interleaved", "hist.ctr-default>=2", "hist.iv-attr-set", "hist.cmac"]
 )
 
@@ -837,6 +837,22 @@ def enum_adapter_grid(tier, shard, nshards, rng):
                        data=data, shared=bool((n + kind) % 2), order=list(order), extra=bytes(rng.getrandbits(8) for _ in range(16 * (1 + n % 3))))
 
 
+def enum_adapter_huge(tier, shard, nshards, rng):
+    """CONSTRUCTED: firmware-sized inputs to the adapter (the payload MAC of a BF3 component is taken over the whole image): 64 KiB and more,
+    lengths with and without a partial last block"""
+    for i, n in enumerate([65536 + 5, 65536, 70001] if tier == "quick" else [65536 + 5, 65536, 70001, 131072 + 9, 65535, 200003]):
+        if i % nshards != shard:
+            continue
+        data = bytes(rng.getrandbits(8) for _ in range(n - 1)) + b"\x07"
+        yield dict(key=bytes(rng.getrandbits(8) for _ in range(16)), ivmode=("omitted", "given", "none")[i % 3], iv=bytes(rng.getrandbits(8) for _ in range(16)),
+                   data=data, shared=bool(i % 2), order=["mac", "enc", "mac"], extra=b"")
+
+
+def check_adapter_huge(case, rec):
+    rec.cls("adapter.len>=64KiB")
+    check_adapter(case, rec)
+
+
 # ================================================================================================ history (stateful)
 POOL_KEYS = [bytes(16), bytes(range(16)), bytes.fromhex("2b7e151628aed2a6abf7158809cf4f3c")]
 POOL_IVS = [ZERO, bytes.fromhex(SP_IV), b"\xff" * 16]
@@ -1217,6 +1233,7 @@ def parts(tier):
         Part("vectors", check=check_mode, enum=enum_vectors, quick=(8, 0), thorough=(8, 0), exhaustive=True),
         Part("modes", check=check_mode, strategy=strat_mode, quick=(16, 500), thorough=(16, 5000)),
         Part("adapter_grid", check=check_adapter, enum=enum_adapter_grid, quick=(8, 0), thorough=(16, 0), exhaustive=True),
+        Part("adapter_huge", check=check_adapter_huge, enum=enum_adapter_huge, quick=(3, 0), thorough=(6, 0)),
         Part("adapter", check=check_adapter, strategy=strat_adapter, quick=(16, 300), thorough=(16, 4000)),
         Part("history", driver=Driver, rules=history_rules(tier), quick=(16, 100), thorough=(16, 800), steps=(25, 50)),
     ]
